@@ -261,6 +261,97 @@ theorem cacgLogPdf_slices (tiny : α) (vecs : T κ) (vals : T α) (y : T κ) (le
 
 end complex
 
+/-! ## 2b. a mixture trainer: the EM loop of `GMMTrainer` (all three covariance types) -/
+
+section gmm
+variable [Add α] [Sub α] [Mul α] [Div α] [Neg α] [OfNat α 0] [OfNat α 1] [NatCast α] [Max α]
+  [LT α] [DecidableLT α] [BEq α] [Transc α]
+
+/-- the reshape pair when `e` of the flattened axes stay in the core (the class axis `K` of a mixture):
+`reshape(-1, *core)` → per-row operation → reshape back, read at a leading index, is the same computation run on
+the slice alone -/
+theorem reshape_pair_class_slices {β : Type} (op : T α → T β) (c c' e : Nat) (t : T α) (lead : List Nat)
+    (hop : ∀ u l, fixLead (op u) c' l = op (fixLead u c l))
+    (hshape : ∀ u, (op u).rshape.drop c' = u.rshape.drop c)
+    (hrank : ∀ u, c ≤ u.rank → c' ≤ (op u).rank)
+    (hc : c + e ≤ t.rank) (hpos : ∀ d, d ∈ t.rshape.drop c → 0 < d)
+    (hv : ValidLead (t.rshape.drop (c + e)) lead) :
+    fixLead (unflattenLead c' (t.rshape.drop c) (op (flattenLead c t))) (c' + e) lead =
+      unflattenLead c' ((t.rshape.drop c).take e) (op (flattenLead c (fixLead t (c + e) lead))) :=
+  reshape_pair_gen op c c' e t lead hop hshape hrank hc hpos hv
+
+/-- `GMMTrainer._m_step` + the model's `__post_init__`: weights, means, covariances, precision factors and
+log-determinants of the stacked M-step at a leading index are those of the M-step run on the slice alone
+(`Gmm.fix` fixes the leading index in every field; the class axis stays in the core) -/
+theorem gmmMStep_slices (tiny eps : α) (ct : CovType) (chol : T α → T α) (y aff sal : T α) (lead : List Nat)
+    (hy : 2 ≤ y.rank) (ha : 2 ≤ aff.rank) (hs : 1 ≤ sal.rank)
+    (hg : GoodLead (covRank ct) (gmmMStep tiny eps ct chol y aff sal).cov lead) :
+    (gmmMStep tiny eps ct chol y aff sal).fix ct lead =
+      gmmMStep tiny eps ct chol (fixLead y 2 lead) (fixLead aff 2 lead) (fixLead sal 1 lead) :=
+  gmmMStep_fixLead tiny eps ct chol y aff sal lead hy ha hs hg
+
+/-- `GMM.predict` (E-step): the posterior of the stacked model at a leading index is the posterior of the
+sliced model on the sliced observations -/
+theorem gmmPredict_slices (tiny log2pi : α) (ct : CovType) (m : Gmm α) (y : T α) (lead : List Nat)
+    (hw : 2 ≤ m.weight.rank) (hm : 2 ≤ m.mean.rank) (hp : covRank ct + 1 ≤ m.pc.rank) (hl : 1 ≤ m.logDet.rank)
+    (hy : 2 ≤ y.rank) :
+    fixLead (gmmPredict tiny log2pi ct m y) 2 lead = gmmPredict tiny log2pi ct (m.fix ct lead) (fixLead y 2 lead) :=
+  gmmPredict_fixLead tiny log2pi ct m y lead hw hm hp hl hy
+
+/-- **`GMMTrainer._fit`, any number of iterations**: every field of the model fitted on the stack, read at a
+leading index, is the field of the model fitted on that slice alone (same initial affiliation slice, same
+saliency slice, same number of iterations).  `hg` is a statement about SHAPES only — `lead` is in range for the
+covariance field of every iterate and no flattened axis is empty; `goodLead_of_check` makes it checkable, and the
+driver checks it for every leading index of every executed case. -/
+theorem gmmFit_slices (tiny eps log2pi : α) (ct : CovType) (chol : T α → T α) (y init sal : T α) (lead : List Nat)
+    (hy : 2 ≤ y.rank) (hi : 2 ≤ init.rank) (hs : 1 ≤ sal.rank) (n : Nat)
+    (hg : ∀ k, k ≤ n → GoodLead (covRank ct) (gmmFit tiny eps log2pi ct chol y init sal k).cov lead) :
+    (gmmFit tiny eps log2pi ct chol y init sal n).fix ct lead =
+      gmmFit tiny eps log2pi ct chol (fixLead y 2 lead) (fixLead init 2 lead) (fixLead sal 1 lead) n :=
+  gmmFit_fixLead tiny eps log2pi ct chol y init sal lead hy hi hs n hg
+
+/-- **`GMMTrainer._fit` on well-shaped inputs, any number of iterations** — the headline for the mixture-trainer
+clause: observations `(*lead, N, D)`, initial affiliation `(*lead, K, N)`, saliency `(*lead, N)` (`fit` replaces
+`None` by ones), `K > 0`, no empty leading axis.  For every in-range leading index the model fitted on the stack,
+restricted to that index (weights, means, covariances, precision factors, log-determinants), IS the model fitted
+on the slice alone.  (`chol` = the per-matrix external of the full-covariance class.) -/
+theorem gmmFit_slices_shaped (tiny eps log2pi : α) (ct : CovType) (chol : T α → T α) (y init sal : T α)
+    (D N K : Nat) (Ld lead : List Nat)
+    (hy : y.rshape = D :: N :: Ld) (hi : init.rshape = N :: K :: Ld) (hs : sal.rshape = N :: Ld)
+    (hK : 0 < K) (hpos : ∀ d, d ∈ Ld → 0 < d) (hv : ValidLead Ld lead) (n : Nat) :
+    (gmmFit tiny eps log2pi ct chol y init sal n).fix ct lead =
+      gmmFit tiny eps log2pi ct chol (fixLead y 2 lead) (fixLead init 2 lead) (fixLead sal 1 lead) n :=
+  gmmFit_fixLead_shaped tiny eps log2pi ct chol y init sal D N K Ld lead hy hi hs hK hpos hv n
+
+/-- and its posterior (`fit_predict`) -/
+theorem gmmFitPredict_slices_shaped (tiny eps log2pi : α) (ct : CovType) (chol : T α → T α) (y init sal : T α)
+    (D N K : Nat) (Ld lead : List Nat)
+    (hy : y.rshape = D :: N :: Ld) (hi : init.rshape = N :: K :: Ld) (hs : sal.rshape = N :: Ld)
+    (hK : 0 < K) (hpos : ∀ d, d ∈ Ld → 0 < d) (hv : ValidLead Ld lead) (n : Nat) :
+    fixLead (gmmPredict tiny log2pi ct (gmmFit tiny eps log2pi ct chol y init sal n) y) 2 lead =
+      gmmPredict tiny log2pi ct
+        (gmmFit tiny eps log2pi ct chol (fixLead y 2 lead) (fixLead init 2 lead) (fixLead sal 1 lead) n)
+        (fixLead y 2 lead) := by
+  have hsh := gmmFit_shapes tiny eps log2pi ct chol y init sal D N K Ld hy hi hs n
+  have hl := length_covCore ct D
+  rw [gmmPredict_fixLead tiny log2pi ct _ y lead
+    (by simp only [T.rank, hsh.1, List.length_cons]; omega)
+    (by simp only [T.rank, hsh.2.1, List.length_cons]; omega)
+    (by simp only [T.rank, hsh.2.2.2.1, List.length_append, List.length_cons, hl]; omega)
+    (by simp only [T.rank, hsh.2.2.2.2, List.length_cons]; omega)
+    (by simp only [T.rank, hy, List.length_cons]; omega),
+    gmmFit_fixLead_shaped tiny eps log2pi ct chol y init sal D N K Ld lead hy hi hs hK hpos hv n]
+
+end gmm
+
+/-- the shape hypothesis of `gmmFit_slices` is decidable: the boolean check the driver runs implies it -/
+theorem goodLead_of_check (r : Nat) (cov : T α) (lead : List Nat) (h : goodLeadB r cov lead = true) :
+    GoodLead r cov lead := goodLeadB_sound h
+
+/-- non-vacuity of `GoodLead`: a diagonal covariance field of shape `(5, 4, K=2, D=3)` and the leading index `[3, 2]`
+(reversed: axis of size 4 at 3, axis of size 5 at 2) -/
+example : GoodLead 1 (⟨[3, 2, 4, 5], fun _ => 0⟩ : T Nat) [3, 2] := goodLeadB_sound (by decide)
+
 /-! ## 3. singleton leading axes behave as if repeated -/
 
 /-- `np.broadcast_to(initialization, (*independent, K, N))` (`cacgmm.py:228`): every slice of the broadcast
